@@ -28,7 +28,7 @@ Example C18_ex_store :
                HZRange (B"z") 0 (-1) default_zrange_opt; HSMembers (B"t"); HGet (B"s")] in
   wf_db [] /\ typed_program [] prog /\
   snd (run_with sprim [] prog) = [r_ok; r_int 2; r_bulk (B"a"); r_int 2; r_int 2; ok (RArr [bulk (B"a"); bulk (B"b")]); r_arr [B"x"; B"y"]; r_bulk (B"v")].
-Proof. split; [split; constructor|]. split; [|vm_compute; reflexivity]. cbn. unfold kind_ok. cbn. repeat split; discriminate || reflexivity || auto. Qed.
+Proof. split; [split; constructor|]. split; [vm_compute; repeat split; (reflexivity || discriminate)|vm_compute; reflexivity]. Qed.
 
 (* (1) the invariant of every reachable database: keys unique; a hash / set / sorted set holds one entry per field /
    member; sorted sets have non-decreasing scores; no stored list, set, hash or sorted set is empty.  Preserved by
